@@ -461,16 +461,21 @@ struct Builder {
 			int B = rng.chance(1, 2) ? operand(t, dag, wa) : operand(t, dag);
 			size_t wb = V(B).w;
 			// SInt order comparisons and mixed-width SInt multiplication take the sign bit: zero-width operands throw
-			if (t == 's' && std::max(wa, wb) == 0 && (name == "lt" || name == "gt" || name == "leq" || name == "geq") && !allowMalformed) return -1;
+			if (t == 's' && std::min(wa, wb) == 0 && (name == "lt" || name == "gt" || name == "leq" || name == "geq") && !allowMalformed) return -1;
 			if (t == 's' && name == "mul" && wa != wb && std::min(wa, wb) == 0 && !allowMalformed) return -1;
 			const char pols[] = "nzos";
 			char pa = pols[rng.below(4)], pb = pols[rng.below(4)];
+			// signed order comparisons sign-extend themselves and mixed-width signed multiplication is only meaningful with
+			// sign extension: other policies on SInt operands are not part of the operators' domain here
+			bool signedOp = t == 's' && (name == "lt" || name == "gt" || name == "leq" || name == "geq" || name == "mul");
+			if (signedOp) { pa = rng.chance(1, 4) ? 'n' : 's'; pb = rng.chance(1, 4) ? 'n' : 's'; }
 			if (!(allowMalformed && rng.chance(1, 12))) {
 				// make it well-formed: the narrower operand needs a policy, sign extension needs a non-empty operand
-				if (wa < wb && pa == 'n') pa = 'z';
-				if (wb < wa && pb == 'n') pb = 'z';
-				if (wa < wb && pa == 's' && wa == 0) pa = 'o';
-				if (wb < wa && pb == 's' && wb == 0) pb = 'o';
+				bool cmpS = signedOp && name != "mul"; // these accept any policies: they call sext() themselves
+				if (wa < wb && pa == 'n' && !cmpS) pa = signedOp ? 's' : 'z';
+				if (wb < wa && pb == 'n' && !cmpS) pb = signedOp ? 's' : 'z';
+				if (wa < wb && pa == 's' && wa == 0 && !signedOp) pa = 'o';
+				if (wb < wa && pb == 's' && wb == 0 && !signedOp) pb = 'o';
 			}
 			return apply(name + "." + pa + pb, {A, B});
 		}
@@ -907,7 +912,9 @@ int main(int argc, char **argv) {
 	std::ios::sync_with_stdio(false);
 	std::cout << "# prop=C03/C08 seed=" << seed << " mode=" << mode << '\n';
 	uint64_t modeSalt = mode == "op" ? 11 : mode == "dag" ? 23 : mode == "dags" ? 29 : mode == "const" ? 37 : mode == "lit" ? 41 : mode == "conc" ? 53 : 67;
-	Rng master(seed * 0x9E3779B97F4A7C15ull + modeSalt);
+	// splitmix64 advances its state by a constant: seeding with seed*constant would make consecutive seeds shifted copies of
+	// each other, so the master state is the *output* of a generator seeded with (seed, mode)
+	Rng master(Rng(seed ^ (modeSalt << 40)).next());
 	bool isolate = !getenv("VERIF_NOFORK");
 	for (size_t i = 0; i < ncases; i++) {
 		uint64_t cs = master.next();
